@@ -307,6 +307,31 @@ structure SliderTailOk (A dur : Float) (n : Int) : Prop where
   spans : ∀ k : Int, 0 ≤ k → k + 2 ≤ n →
     UpTo ((A + (Scalar.ofInt k : Float) * (dur / (Scalar.ofInt n : Float))) + dur / (Scalar.ofInt n : Float))
 
+/-- the hypothesis with the upper bounds ALONE (end within the limit; tail and span ends `≤ limit`, hence numbers): without
+the clause `0 ≤ D` and without finiteness (i.e. without excluding `−∞`). -/
+def SliderTailUpper (A dur : Float) (n : Int) : Prop :=
+  InLimit (A + dur) ∧
+  Scalar.le (A + (Scalar.ofInt n : Float) * (dur / (Scalar.ofInt n : Float))) (maxParseValue : Float) = true ∧
+  ∀ k : Int, 0 ≤ k → k + 2 ≤ n →
+    Scalar.le ((A + (Scalar.ofInt k : Float) * (dur / (Scalar.ofInt n : Float))) + dur / (Scalar.ofInt n : Float))
+      (maxParseValue : Float) = true
+
+/-- the statement with the upper bounds alone — NOT proved here (`sliderTimes_osu_catch_float` is the part that is). Missing:
+(a) `0 ≤ D` for decoded sliders: the velocity is positive and finite (`C01.decoded_velocity_range_float`), but the sign of the
+curve length `dist` returned by `Curve.new` is not available as a theorem (a negative length makes `SliderEventsIter::new`
+panic, so osu! / catch never get that far; taiko / mania would), and the sign has to be carried through the rounded
+`n · dist / velocity / n`; (b) the exclusion of `−∞` for a tail / span end that is `≤ limit` (impossible with `0 ≤ D` and a
+finite start, not proved). No counterexample is known. -/
+def sliderTimes_upper_statement [Trig Float32] : Prop :=
+  ∀ (bs : List UInt8) (st : BeatmapState Float Float32) (m : Beatmap Float Float32),
+    decodeBytes beatmapDecoder bs = .ok st → st.finish = .ok m →
+    (∀ h ∈ m.hitObjects, ∀ s, h.kind = .slider s → ∀ dist, curveDist s = .ok dist →
+      SliderTailUpper h.startTime ((Scalar.ofInt (s.repeatCount + 1) : Float) * dist / s.velocity) (s.repeatCount + 1)) →
+    SliderTimesInLimit m
+
+theorem SliderTailOk.upper {A dur : Float} {n : Int} (h : SliderTailOk A dur n) : SliderTailUpper A dur n :=
+  ⟨h.endIn, h.tail.2, fun k hk0 hk2 => (h.spans k hk0 hk2).2⟩
+
 /-- **every event time of the slider's node events lies between the head and the limit**: under `SliderTailOk` and a start
 within the limit, every `NodeTime` is within the limit (`C20.head_le_tail_float`, `C20.head_le_repeat_float`). -/
 theorem nodeTime_inLimit_float (A dur : Float) (n : Int) (hA : InLimit A) (hn1 : 1 ≤ n) (hn : n < 2 ^ 31)
@@ -463,6 +488,18 @@ theorem sliderTailOk_of_check {A dur : Float} {n : Int} (h : sliderTailOkB A dur
   rw [Int.toNat_of_nonneg hk0] at this
   exact upTo_of_check this
 
+/-- `SliderTailOk` on closed doubles: start `1000`, duration `714.2857142857142`, two spans (tail `1714.2857142857142`, span
+end `1357.142857142857`). -/
+example : SliderTailOk (1000 : Float) (Float.ofBits 0x4086524924924924) 2 := sliderTailOk_of_check (by decide +kernel)
+
+/-- … and a start `647` ms before the limit: the tail clause fails. -/
+example : ¬ SliderTailOk (2147483000 : Float) (Float.ofBits 0x4086524924924924) 2 := by
+  intro h
+  have : Scalar.le ((2147483000 : Float) + (Scalar.ofInt 2 : Float) * (Float.ofBits 0x4086524924924924 / (Scalar.ofInt 2 : Float)))
+      (maxParseValue : Float) = false := by decide +kernel
+  rw [h.tail.2] at this
+  cases this
+
 section
 variable [Trig Float32]
 
@@ -590,6 +627,35 @@ theorem evOver_not_collectedTimes :
         simp only [] at c5
         rw [hall] at c5; cases c5
     exact ⟨st, m, h1, h2, c1, c2, hnot, fun he => hnot (collectedTimes_all_modes_float _ st m h1 h2 he)⟩
+
+/-- the same file in catch mode (`juicestream_events`). -/
+def evCatchFileOf (l : String) : List UInt8 :=
+  (str "osu file format v14\n\n[General]\nMode: 2\n\n[TimingPoints]\n0,500,4,2,0,100,1,0\n\n[HitObjects]\n" ++ str l ++
+    str "\n").map (fun c => c.toNat.toUInt8)
+
+/-- catch mode, the same slider: the same four collected times (end, head, repeat, tail), `ObjEndOk` holds. -/
+theorem evCatch_checked :
+    (decodeFinish (evCatchFileOf evLine)).map (fun m => (m.general.mode, m.hitObjects.length, m.hitObjects.all objEndOkB,
+      collectedBits m)) =
+    some (GameMode.catch, 1, true, [0x409AC92492492492, 0x408F400000000000, 0x4095349249249249, 0x409AC92492492492]) := by
+  decide +kernel
+
+/-- the hypotheses are satisfiable on a decoded catch-mode map with a slider. -/
+theorem evCatch_accepted :
+    ∃ (st : BeatmapState Float Float32) (m : Beatmap Float Float32),
+      decodeBytes beatmapDecoder (evCatchFileOf evLine) = .ok st ∧ st.finish = .ok m ∧ m.general.mode = .catch ∧
+      m.hitObjects.length = 1 ∧ ObjEndsInLimit m ∧ CollectedTimesInLimit m ∧ RepTimingMap IeeeRep64 m := by
+  have hc := evCatch_checked
+  cases hm : decodeFinish (evCatchFileOf evLine) with
+  | none => rw [hm] at hc; cases hc
+  | some m =>
+    rw [hm] at hc
+    simp only [Option.map_some, Option.some.injEq, Prod.mk.injEq] at hc
+    obtain ⟨c1, c2, c3, _⟩ := hc
+    obtain ⟨st, h1, h2⟩ := decodeFinish_spec hm
+    have he : ObjEndsInLimit m := fun h hh => objEndOk_of_check h (List.all_eq_true.mp c3 h hh)
+    exact ⟨st, m, h1, h2, c1, c2, he, collectedTimes_all_modes_float _ st m h1 h2 he,
+      decoded_repTimingMap_ieee_ends _ st m h1 h2 he⟩
 
 end Examples
 
